@@ -46,8 +46,17 @@ def run(ctx) -> list[Inst]:
                 pm[id(ch)] = n
         # ------------------------------------------------------------ (a) nodes
         node_calls = _calls(f, 'Node')
+        helper_nodes = False
         if not node_calls:
-            raise AnalysisError(f'{fname}: no Node(...) construction found')
+            # the construction may have been moved into a helper: look in the package functions f reaches
+            for g in ctx.an.reachable([f]).values():
+                if g is not f and _calls(g, 'Node'):
+                    helper_nodes = True
+                    insts.append(Inst(RULE, fname, '(a) one Node per element under a unique key', 'unproven',
+                                      msg=f'database nodes are built in the helper {g.short}', file=rel,
+                                      line=f.node.lineno, props=PROPS))
+            if not helper_nodes:
+                raise AnalysisError(f'{fname}: no Node(...) construction found')
         node_containers = set()
         for nc in node_calls:
             par = pm.get(id(nc))
@@ -182,8 +191,9 @@ def run(ctx) -> list[Inst]:
     f = prog.func('ingest_model')
     g = prog.func('get_model')
     written = set()
-    for nc in _calls(f, 'Node'):
-        written |= {kw.arg for kw in nc.keywords if kw.arg}
+    for g_ in ctx.an.reachable([f]).values():
+        for nc in _calls(g_, 'Node'):
+            written |= {kw.arg for kw in nc.keywords if kw.arg}
     read = set()
     # variables holding the property dictionary of a database node: `x = dict(<row>[...])`
     node_dicts = set()
